@@ -844,10 +844,21 @@ impl<'a> ParseTableBuilder<'a> {
             // an `is_repetition` flag.
             let conflicting_variable_index =
                 conflicting_items.iter().next().unwrap().variable_index;
+            // The intentional ambiguity is the one between the two halves of the repeat
+            // rule's own recursion, `aux -> aux aux`. A conflict between two *alternatives*
+            // of the repeated content (e.g. `repeat(choice('x', seq('x', 'x', 'y')))`) also
+            // has a single auxiliary parent, but it is a genuine conflict: resolving it as a
+            // repetition would silently drop the SHIFT and reject valid input.
+            let repeat_symbol = Symbol::non_terminal(conflicting_variable_index as usize);
             if self.syntax_grammar.variables[conflicting_variable_index as usize].is_auxiliary()
-                && conflicting_items
-                    .iter()
-                    .all(|item| item.variable_index == conflicting_variable_index)
+                && conflicting_items.iter().all(|item| {
+                    item.variable_index == conflicting_variable_index
+                        && item
+                            .production(self.syntax_grammar)
+                            .steps
+                            .iter()
+                            .all(|step| step.symbol() == repeat_symbol)
+                })
             {
                 *is_repetition = true;
                 return Ok(());
